@@ -12,7 +12,10 @@ A *closure* is a dict
 Protocol sent to `drv_emit` (identifiers are interned to numbers, `padding_<k>_` is 1000000+k):
     T <table> ...                      the native tables, once
     CASE <id> <autoPad> <documented> <skipHdr>
-    FILE <core>                        start of the next file of the closure (parse order, imports first)
+    FILE <core> <abs path comps>       start of the next file of the closure (parse order, imports first), its resolved path
+    PKG <core_defs> <abs path comps>   the package directory (what `core_defs/*.yaml` are relative to)
+    ENV <n> <cwd comps> <abs> <segs>   the environment of one real compile run: working directory, root path as spelled
+    SRC <name> <segs>                  `type_source` of one class of the real Python output
     ITEM <core> <kind> ...             the closure flattened in parse order, lengths evaluated
     YAML sec <k> <n> | <item>          the real combined YAML, section by section in file order (canonical lines)
     OUTCOME ok | err <alignment|tooLarge|syntax|internal>
@@ -204,7 +207,8 @@ def flatten(cl: Dict[str, Any]) -> List[Tuple[str, Dict[str, Any]]]:
         seen.append(fn)
         fs = cl["files"][fn]
         for i in fs.get("imports", []):
-            walk(i)
+            # an import is spelled relative to the importing file's directory (the parser chdir's there)
+            walk(os.path.normpath(os.path.join(os.path.dirname(fn), i)))
         order.append((fn, fs))
 
     walk(cl["root"])
@@ -222,7 +226,20 @@ def core_closure() -> Dict[str, Any]:
     return CORE_CACHE["cl"]
 
 
-def item_lines(cl: Dict[str, Any], I: Interner, hashes: Dict[str, str], with_files: bool = False) -> List[str]:
+def path_toks(p, I: Interner) -> List[str]:
+    """components of a resolved absolute path, interned"""
+    return [str(I(c)) for c in Path(p).parts[1:]]
+
+
+def spelled_toks(p, I: Interner) -> List[str]:
+    """a path as spelled (what `pathlib.Path(p)` keeps of it): abs flag, then `^` for `..`, `.` or interned names"""
+    pp = Path(p)
+    parts = [c for c in pp.parts if c != "/"]
+    return ["1" if pp.is_absolute() else "0"] + ["^" if c == ".." else "." if c == "." else str(I(c)) for c in parts]
+
+
+def item_lines(cl: Dict[str, Any], I: Interner, hashes: Dict[str, str], with_files: bool = False,
+               src_dir: Optional[Path] = None) -> List[str]:
     """ITEM lines in parse order; with_files: a `FILE <core>` line before the items of each file (the driver rebuilds the
     file-by-file closure `Model/Combined.lean` works on from them)"""
     L: List[str] = []
@@ -234,7 +251,11 @@ def item_lines(cl: Dict[str, Any], I: Interner, hashes: Dict[str, str], with_fil
     for core, files in groups:
         for fn, fs in files:
             if with_files:
-                L.append(f"FILE {core}")
+                where: List[str] = []
+                if src_dir is not None:
+                    base = (C.REPO / "src" / "pyrtma" / "core_defs") if core else src_dir
+                    where = path_toks(os.path.realpath(base / fn), I)
+                L.append(" ".join(["FILE", str(core)] + where))
             for n, e, v in fs.get("constants", []):
                 if isinstance(v, float):
                     L.append(f"ITEM {core} const {I(n)} f {struct.unpack('<Q', struct.pack('<d', v))[0]}")
@@ -353,6 +374,7 @@ def classify(P, e: BaseException) -> str:
 def write_closure(cl: Dict[str, Any], d: Path):
     d.mkdir(parents=True, exist_ok=True)
     for fn, fs in cl["files"].items():
+        (d / fn).parent.mkdir(parents=True, exist_ok=True)
         (d / fn).write_text(file_yaml(fs))
 
 
@@ -393,6 +415,26 @@ def real_compile(cl: Dict[str, Any], src: Path, out: Path, cwd: Optional[Path] =
     finally:
         os.chdir(old)
     return ["ok"], ""
+
+
+def env_toks(cwd, root_spelled, I: Interner) -> List[str]:
+    c = path_toks(os.path.realpath(cwd), I)
+    return [str(len(c))] + c + spelled_toks(root_spelled, I)
+
+
+def src_lines(py_text: str, I: Interner) -> List[str]:
+    """`type_source` of every class of the generated Python module: `SRC <name> <path components>`"""
+    L = []
+    for node in ast.parse(py_text).body:
+        if not isinstance(node, ast.ClassDef):
+            continue
+        for b in node.body:
+            if isinstance(b, ast.AnnAssign) and isinstance(b.target, ast.Name) and b.target.id == "type_source" \
+                    and isinstance(b.value, ast.Constant) and isinstance(b.value.value, str):
+                n = node.name[4:] if node.name.startswith("MDF_") else node.name
+                segs = ["^" if c == ".." else "." if c == "." else str(I(c)) for c in b.value.value.split("/") if c != ""]
+                L.append(" ".join(["SRC", str(I(n))] + segs))
+    return L
 
 
 def reg_lines(p, I: Interner, tag: str = "REG") -> List[str]:
@@ -1070,7 +1112,10 @@ def run_closure(cid: str, cl: Dict[str, Any], tmp_root: Path, want: Dict[str, bo
         skip_hdr = (not cl.get("coredefs")) and not has_hdr
         blk = [f"CASE {cid} {1 if cl.get('auto_pad', True) else 0} {1 if cl.get('documented', True) else 0} "
                f"{1 if skip_hdr else 0}"]
-        blk += item_lines(cl, I, hashes, with_files=True)
+        blk += item_lines(cl, I, hashes, with_files=True, src_dir=src)
+        blk.append(" ".join(["PKG", str(I("core_defs"))] + path_toks(os.path.realpath(C.REPO / "src" / "pyrtma"), I)))
+        # the environment of the first compile run: the harness's working directory, the root path spelled absolutely
+        blk.append(" ".join(["ENV"] + env_toks(os.getcwd(), root, I)))
         out = work / "out"
         if outcome == ["ok"]:
             oc2, err2 = real_compile(cl, root, out, python=True, javascript=True, matlab=True, c_lang=True, combined=True)
@@ -1106,6 +1151,7 @@ def run_closure(cid: str, cl: Dict[str, Any], tmp_root: Path, want: Dict[str, bo
             jsS = _safe(parse_js, texts["js"], I, (node or {}).get("fresh"), default=["bad unparsable-js"])
             mS = _safe(lambda t, i: _fix_m_refs(parse_m(t, i)), texts["m"], I, default=["bad unparsable-m"])
             blk += ["PY " + s for s in pyS] + ["C " + s for s in cS] + ["JS " + s for s in jsS] + ["M " + s for s in mS]
+            blk += _safe(src_lines, texts["py"], I, default=["SRC 0 unparsable"])
             if want.get("probes"):
                 pr = probe_python(out)
                 obs["py_probe_error"] = pr.get("error", "")
@@ -1162,6 +1208,7 @@ def run_closure(cid: str, cl: Dict[str, Any], tmp_root: Path, want: Dict[str, bo
                 out2 = work / "elsewhere" / "out2"
                 (work / "elsewhere").mkdir()
                 rel = os.path.relpath(root, work / "elsewhere")
+                blk.append(" ".join(["ENV"] + env_toks(work / "elsewhere", rel, I)))
                 oc4, err4 = real_compile(cl, Path(rel), out2, cwd=work / "elsewhere", python=True, javascript=True,
                                          matlab=True, c_lang=True, combined=True)
                 diffs = []
@@ -1174,6 +1221,7 @@ def run_closure(cid: str, cl: Dict[str, Any], tmp_root: Path, want: Dict[str, bo
                 # third compile: from the parent directory, root file spelled with a directory component
                 out3 = work / "out3"
                 rel3 = os.path.relpath(root, work)
+                blk.append(" ".join(["ENV"] + env_toks(work, rel3, I)))
                 oc5, err5 = real_compile(cl, Path(rel3), out3, cwd=work, python=True, javascript=True,
                                          matlab=True, c_lang=True, combined=True)
                 if oc5 != ["ok"]:
